@@ -71,6 +71,9 @@ def cases(tier, seed):
     for proj, beam, shp, ph, snr in itertools.product(["SIN", "ZEA"], [(7.5, 3.0, 0.0), (6.6, 3.0, 90.0), (6.0, 2.5, 170.0), (8.0, 2.6, 45.0)], [(1.0, 1.0), (1.3, 1.3)],
                                                     [(0.5, 0.5), (0.5, 0.0), (0.0, 0.5), (-0.5, 0.5)], [100.0, 1e4]):
         yield "D", dict(proj=proj, shape=list(shp), phase=list(ph), snr=snr, docov=(snr > 500), beam=list(beam))
+    # F: the four forced / internal combinations of noise and background on a noise-free image with a constant pedestal
+    for ped, opts, ph, docov in itertools.product([2.5, -3.0, 0.0], ["rms+bkg", "rms"], [(0.0, 0.0), (0.3, -0.4)], [False, True]):
+        yield "F", dict(pedestal=ped, opts=opts, phase=list(ph), docov=docov)
     nreal = 8 if q else 24
     for real, mode, rmsmode, snr, s in itertools.product(range(nreal), ["white", "corr"], ["forced", "bane1", "bane2"], [50, 200], [1, 2]):
         if rmsmode != "forced" and (real % 4 != 0):
@@ -215,6 +218,38 @@ def ev_D(case, ctx):
     compare_noisefree(out, src, hdr, beam, ctx, sig, sig)
 
 
+def ev_F(case, ctx):
+    """noise-free source on a constant pedestal of a few sigma: forced rms with forced / internally estimated background, and
+    forced background (an image without noise has no internal noise estimate: rms internal + noise is block C)"""
+    d = os.environ["VERIF_SCRATCH"]
+    cd = 10.0 / 3600
+    shape = (72, 80)
+    beam_px = (4.0, 3.0, 20.0)
+    beam = (beam_px[0] * cd, beam_px[1] * cd, beam_px[2])
+    hdr = wz.make_header("SIN", (140.0, -25.0), cd, shape, beam=beam)
+    src = skygauss.source_at_pixel(hdr, 35.0 + case["phase"][0], 41.0 + case["phase"][1], 1.0, 1.5 * beam_px[0], 1.2 * beam_px[1], 50.0)
+    rms = 0.01
+    ped = case["pedestal"] * rms
+    f = os.path.join(d, "c01f.fits")
+    scenes.write_image(f, hdr, skygauss.render(hdr, shape, [src]) + ped)
+    sig = "F:pedestal=%g sigma,forced=%s,phase=%r,docov=%s" % (case["pedestal"], case["opts"], case["phase"], case["docov"])
+    ctx.count("F")
+    ctx.nontrivial(sig)
+    kw = dict(docov=case["docov"])
+    if "rms" in case["opts"]:
+        kw["rms"] = rms
+    if "bkg" in case["opts"]:
+        kw["bkg"] = ped
+    try:
+        out = run_finder(f, **kw)
+    except Exception as e:
+        ctx.violation("finder raised %r (%s)" % (e, sig), "raise|" + sig)
+        return
+    compare_noisefree(out, src, hdr, beam, ctx, sig, sig)
+    if len(out) == 1 and not abs(out[0].background - ped) <= 1e-3 * rms + 1e-6 * abs(ped):
+        ctx.violation("background column %.6g, the image's pedestal is %.6g (%s)" % (out[0].background, ped, sig), "background|" + sig)
+
+
 def correlated_noise(shape, beam_px, rs):
     """unit-variance noise whose autocorrelation is a Gaussian with sigmas beam_sigma/sqrt(2): white noise convolved
     with the half-beam kernel (sigma = beam_sigma / 2), rotated to the beam position angle in pixel space"""
@@ -310,4 +345,4 @@ def ev_C(case, ctx):
 
 
 def evaluate(clause, case, ctx):
-    dict(A=ev_A, B=ev_B, C=ev_C, D=ev_D, E=ev_E)[clause](case, ctx)
+    dict(A=ev_A, B=ev_B, C=ev_C, D=ev_D, E=ev_E, F=ev_F)[clause](case, ctx)
